@@ -138,7 +138,9 @@ def h_optimal_cost_value(env):
     n = p["n"]
     mode = env.choice("mode", ["min", "max"])
     vkind = env.choice("vkind", ["dict", "func", "plain"])
-    x, xcost = fx.make_variable(env, "x", fx.domain("d", fx.values(n)), vkind, p.get("kinds", ("fin",)))
+    # mixed: a legal domain whose values cannot be ordered with one another (a cost tie must not fall back on comparing them)
+    dom = ["auto", 1, 2.5, None][:n] if p.get("mixed") else fx.values(n)
+    x, xcost = fx.make_variable(env, "x", fx.domain("d", dom), vkind, p.get("kinds", ("fin",)))
     if env.symbolic or True:
         import pvc.models as M
         R.random = M.RandomModel(env)
@@ -161,7 +163,7 @@ def h_optimal_cost_value(env):
 Contract(
     "relations.optimal_cost_value", ["C06"], ["pydcop.dcop.relations:optimal_cost_value"],
     h_optimal_cost_value,
-    lambda tier: [dict(n=1), dict(n=2, kinds=("fin", "+inf", "-inf")), dict(n=3)] + ([dict(n=4)] if tier == "thorough" else []),
+    lambda tier: [dict(n=1), dict(n=2, kinds=("fin", "+inf", "-inf")), dict(n=3), dict(n=3, mixed=True)] + ([dict(n=4), dict(n=4, mixed=True)] if tier == "thorough" else []),
     mode="B", must_cover=["post"],
     trusted=["random.choice modelled as an explored choice of every element"],
     desc="returned value is in the domain and optimises the variable's own cost; returned cost is that cost",
